@@ -17,6 +17,10 @@ CHECKS = {
    technique="TLA+ spec ModelGraph.tla instantiated with model graphs extracted from live torchtree objects (listener lists, handler tables probed on every flag valuation, probed reads and update roots); TLC explores all histories (finite flag state); state-graph transitions and counterexamples replayed on the real objects with flags compared to the spec state and every value compared with a freshly built copy",
    text="For each zoo graph (parameter zoo with views/concatenations/transformed parameters/parametric transforms/variational objectives; CLI-built phylogenetic posteriors) TLC checks NoStale/NeverRaises over every reachable cache-flag state under all update operations and evaluations of each projection; transition-covering walks over the TLC state graph are replayed on the real graph: real flags must equal the spec state (bisimulation check) and every evaluated value must equal a freshly built copy holding the same raw parameter values.",
    note="Graphs are the ones in the zoo (classes absent from them are not covered; listed in evidence samples); projections of <=4 ops x 7 evals per TLC run in the quick tier, walks cover a sample of the transitions (thorough: more walks, more zoos); variational objectives are evaluated under a fixed seed; proposals/rejections by samplers are exercised in C15."),
+ "C15": dict(level="model_checking", design="4/C15",
+   technique="TLA+ spec Mcmc.tla (one action per phase of MCMC.run) model-checked with TLC for every target function; trace validation of recorded real chains by TraceMcmc.tla (total validation naming the failing clause), records built from the TORCHTREE_VERIF hook, instance wrappers and independent measurements (fresh-copy target, recomputed Hastings ratio, recomputed acceptance rule, boldness before/after tuning)",
+   text="TLC checks the loop invariants (carried density = target, proposal evaluated on target, rejection restores, logged rows consistent, non-finite never accepted, tuning direction with measured boldness signs) over all 26 target functions on 3 states x 2 operators; real chains for every operator type (sliding window, scaler, Dirichlet, GMRF block update, HMC diag/dense with AdaptiveStepSize / DualAveraging / MassMatrixAdaptor), mixtures, adaptation on/off, out-of-support proposals and CLI-built phylogenetic targets are recorded and every iteration is stepped through the spec's phase actions with the clauses of the property evaluated by TLC.",
+   note="Density ids identify floats within relative 1e-9; fresh-copy target is a rebuild from JSON with the recorded raw parameter values; dual averaging and the running-rate step-size variant are not judged step by step (by design, see DESIGN C15); block-update Hastings ratio not recomputed independently; chains are finite samples of the schedule space (seeded)."),
 }
 
 PENDING = {}
